@@ -85,6 +85,103 @@ def tie_header_cache(ctx):
     return problems
 
 
+def wav_chunked(chunks, nframes=4):
+    """RIFF/WAVE, fmt (PCM16 mono 8000 Hz), the given (id, size) chunks of zeros, then `data`; returns (bytes, scenario items)"""
+    fmt = b"fmt " + struct.pack("<IHHIIHH", 16, 1, 1, 8000, 16000, 2, 16)
+    body = b"WAVE" + fmt
+    items = ["b12", "|", "p0", "f4", "j-4", "|", "j0", "f4", "f4", "?", "|", "f4", "|",
+             "j0", "f4", "f4", "?", "|", "f2", "f2", "f4", "f4", "f2", "f2", "?", "|", "j0", "?", "|"]
+    prev = 16
+    for (cid, size) in chunks:
+        body += cid + struct.pack("<I", size) + bytes(size + (size & 1))
+        items += ["j%d" % (prev & 1), "f4", "f4", "?", "|", "j%d" % size, "?", "|"]
+        prev = size
+    audio = bytes(range(1, 2 * nframes + 1))
+    dataoffset = 8 + len(body) + 8
+    body += b"data" + struct.pack("<I", len(audio)) + audio
+    items += ["j%d" % (prev & 1), "f4", "f4", "?", "|", "C%d" % len(audio), "S%d" % dataoffset, "f4"]
+    data = b"RIFF" + struct.pack("<I", len(body)) + body
+    return data, items
+
+
+def tie_header_cache_wav(ctx):
+    """The WAV chunk walk (wav.c:321-660, wavlike_read_fmt_chunk) as a psf_binheader_readf sequence:
+       guess_file_type "b"12 | "pmj" 0 -4 | per chunk "jm4" (jump = previous size & 1) | RIFF: "m" | fmt: "224422" "j"0 |
+       unknown / JUNK chunk: "j" size | data: psf_fseek (datalength, SEEK_CUR) ... | after the loop psf_fseek (dataoffset) "4".
+    Chunk sizes are chosen so that the cached header crosses 256 ... 65536 (growth by doubling, refused at 131072) and single
+    chunks cross 51200 (2 x needed refused).  Compared: the refused-allocation / short-count log lines, in order."""
+    problems = []
+    rng = ctx.rng
+    layouts = []
+    for s1 in (0, 1, 7, 196, 197, 198, 199, 200, 211, 212, 213, 219, 220, 221, 228, 229, 300, 452, 453, 468, 469, 470, 1000, 4000, 25000, 51199, 51200, 51201, 51202, 60000, 102400, 150000):
+        layouts.append([(b"JUNK", s1)])
+        layouts.append([(b"JUNQ", s1), (b"abcd", 33)])
+    for n, sz in ((3, 70), (10, 100), (40, 1000), (64, 1000), (65, 1000), (66, 1000), (70, 1000), (33, 1977), (33, 1978), (33, 1979), (130, 500), (131, 495), (20, 5000), (14, 5000), (310, 200), (313, 200), (314, 200), (315, 200), (330, 200), (345, 200), (360, 200), (400, 200), (160, 400), (200, 400)):
+        layouts.append([(b"JUNK" if k % 2 else b"Padd", sz) for k in range(n)])
+    for _ in range(25):
+        layouts.append([(b"rnd%d" % (k % 10), rng.choice([0, 1, 2, 30, 255, 256, 257, 1000, 3000, 9000, 20000, 30000, 52000])) for k in range(rng.randrange(1, 12))])
+    scripts, model_in = [], []
+    for i, lay in enumerate(layouts):
+        data, items = wav_chunked(lay)
+        scripts.append(("wv%d" % i, "store s0 %s\nopen h0 s0 r\ncmd h0 %s\nclose h0\ncmd null %s\n" % (data.hex(), LOG_CMD, LOG_CMD)))
+        model_in.append("%d 0 %s" % (len(data), " ".join(items)))
+    out = ctx.batch(scripts, op_timeout=10, workers=4)
+    model = ctx.run_model(["c03", "hdr"], "\n".join(model_in) + "\n").split("\n")
+    agree = 0
+    stopped = 0
+    with_events = 0
+    log_full = 0
+    for i, lay in enumerate(layouts):
+        tr = [l for l in out.get("wv%d" % i, []) if l]
+        ctx.count(1, tag="hdr-tie-wav")
+        desc = ", ".join("%s:%d" % (c.decode(), n) for (c, n) in lay[:6]) + (" ... (%d chunks)" % len(lay) if len(lay) > 6 else "")
+        if len(tr) < 5 or any(l.startswith(("CRASH", "ABORT", "TIMEOUT")) for l in tr):
+            problems.append(("tie-hdr-wav-crash-%d" % i, "# C03 header-cache tie (WAV): the probe with chunks %s did not run to completion\n%s\n--- script\n%s"
+                             % (desc, "\n".join(tr)[:2000], scripts[i][1]), True))
+            continue
+        ok = tr[1].startswith("open=ok")
+        logline = tr[2] if ok else tr[4]
+        impl_ev, text = log_events(logline.split("data=")[1])
+        toks = model[i].split()
+        model_ev = [t for t in toks if t.startswith("denied:") or t == "short"]
+        stop = "STOP" in toks
+        if "MODEL-OUT-OF-BOUNDS" in toks:
+            problems.append(("tie-hdr-wav-model-oob-%d" % i, "the executable model itself reports an out-of-bounds access for WAV layout %s: %s" % (desc, model[i][:400]), False))
+        truncated = len(text) >= 2048 - 100   # SF_PARSELOG_LEN: later lines are lost, what is there must still be a prefix
+        if truncated:
+            good = impl_ev == model_ev[:len(impl_ev)]
+        elif stop:
+            good = impl_ev[:len(model_ev)] == model_ev and len(impl_ev) >= len(model_ev)
+        else:
+            good = impl_ev == model_ev
+        if good and stop and ok:
+            good = False      # a "jm4" call cut short leaves marker = 0: the walk ends before `data`, the open must fail
+        if good and not stop and not model_ev and not ok:
+            good = False      # nothing refused, nothing short: the walk reaches `data` and the open must succeed
+        if good and not stop and ok:
+            d = dict(t.split("=") for t in tr[1].split()[1:])
+            if d.get("frames") != "4" or d.get("ch") != "1":
+                good = False
+        if not good:
+            problems.append(("tie-hdr-wav-%d" % i,
+                             "# C03 header-cache tie (WAV chunk walk): chunks %s, file length %d\n# library: %s ; log events %s\n# model (HeaderCache.readfItem on the call sequence): %s%s\n"
+                             "# psf_binheader_readf sequence: %s\n# parse log (tail):\n%s\n--- script\n%s"
+                             % (desc, len(scripts[i][1]) // 2, tr[1][:100], impl_ev, model_ev, " then STOP (a call was cut short)" if stop else "",
+                                model_in[i][:600], "\n".join("#   " + l for l in text.split("\n")[-14:]), scripts[i][1][:200000]), False))
+        else:
+            agree += 1
+            stopped += 1 if stop else 0
+            with_events += 1 if model_ev else 0
+            log_full += 1 if truncated else 0
+    ctx.notes["tie_header_cache_wav_cases"] = len(layouts)
+    ctx.notes["tie_header_cache_wav_agree"] = agree
+    ctx.notes["tie_header_cache_wav_with_refusals"] = with_events
+    ctx.notes["tie_header_cache_wav_cut_short"] = stopped
+    ctx.notes["tie_header_cache_wav_log_truncated"] = log_full
+    ctx.coverage["traces_validated_against_impl"] += len(layouts)
+    return problems
+
+
 def tie_gate(ctx, c):
     """AU: samplerate and channel fields go straight into psf->sf; au.c checks the channel count itself (its own
     error numbers), everything else is left to validate_sfinfo / validate_psf."""
@@ -236,6 +333,7 @@ def tie_wrappers(ctx, c):
 def run_ties(ctx, c):
     problems = []
     problems += tie_header_cache(ctx)
+    problems += tie_header_cache_wav(ctx)
     problems += tie_gate(ctx, c)
     problems += tie_wrappers(ctx, c)
     return problems[:6]
